@@ -302,6 +302,20 @@ def sign_step_job(args):
         sv = [int(bool((v.model or {}).get(f"sg_{j}", False))) for j in range(n)]
         rp = dict(rp, signs=sv, paulis=[("-" if b else "+") + l for b, l in zip(sv, labels)])
         what += f" (sign vector {sv})"
+        # A refutation obtained against CONTRACT STUBS of qiskit is only reported if the real library (real qiskit) shows the same failure on that sign vector;
+        # otherwise the stubs do not cover what this code does with qiskit and the symbolic verdict is withheld.
+        try:
+            gates = adapt.gates_of(sc.get_preparation_circuit(Stabilizer((R.copy(), Sm.copy(), np.array(sv, dtype=np.int8))), conn))
+            cgn = P.canon(n, P.state_generators(n, gates))
+            got = [P.member_sign(n, cgn, (x, z, 0)) for x, z in rows] if cgn is not None else [None] * n
+            native_bad = any(g is None or g != b for g, b in zip(got, sv))
+            detail = f"real run: sign bits in the prepared group {got}"
+        except Exception as e:
+            native_bad, detail = True, f"real run raised {type(e).__name__}: {e}"
+        if not native_bad:
+            return [("C01.signstep.all_signs", None, f"sign:{key}", f"symbolic run against the qiskit contract stubs refuted the sign step for {labels} on {n}-{conn} at sign vector {sv}, "
+                     f"but the real library is correct there ({detail}): the stubs do not model this code; verdict withheld", rp)]
+        what += "; " + detail
     return [("C01.signstep.all_signs", v.status == "proved" if v.status != "unknown" else None, f"sign:{key}", what, rp)]
 
 
